@@ -59,4 +59,27 @@ void h_matmul_el(void){
   OBS(out); OBS(os[0]);
   REACHED();
 }
+/* mixed element types: uint8 @ uint16 (WIDE=1: uint16 @ uint8); uint16 values are 256 + byte. The result element type is the common type uint16 (NumPy: uint8 @ uint16 -> uint16), the element the sum of products mod 2^16 */
+void h_matmul_mixed(void){
+  u64 sa[3] = {A0, A1, 1}, sb[3] = {B0, B1, 1}, idx[4] = {0}, os[4] = {0}, od = 0, esz = 0; u8 da[16], db[16]; u32 out = 0;
+  in_data8(da, 16); in_data8(db, 16);
+  idx[0] = in_u64(0, 3); idx[1] = in_u64(0, 3); ASSUME(idx[0] < A0 && idx[1] < B1);
+#if WIDE
+  int r = k_matmul_mixed_wn(sa, da, sb, db, idx, 2, os, &od, &out, &esz);
+#else
+  int r = k_matmul_mixed_nw(sa, da, sb, db, idx, 2, os, &od, &out, &esz);
+#endif
+  ASSERT(r == 1 && od == 2 && os[0] == A0 && os[1] == B1, "shape of np.matmul");
+  ASSERT(esz == 2, "the element type of the product is the common type of both operands' element types (uint16, as NumPy: not the narrower operand's)");
+  u32 acc = 0;
+  for (u64 k = 0; k < 4; k++) if (k < A1){ u32 x = da[idx[0]*A1 + k], y = db[k*B1 + idx[1]];
+#if WIDE
+    x += 256;
+#else
+    y += 256;
+#endif
+    acc += x * y; }
+  ASSERT(out == (u32)(u16)acc, "element == sum_k a[i,k]*b[k,j] in the common type uint16 (mod 2^16, as NumPy)");
+  OBS(out); OBS(esz); REACHED();
+}
 #endif
